@@ -3,7 +3,7 @@ import prims
 import values
 from values import VAL, show
 from runner import inst
-from rules.common import (tags_of, cls_of, witness_path, arg_role, obj_root, outcomes, is_temp_object, path_class)
+from rules.common import (tags_of, cls_of, witness_path, arg_role, obj_root, outcomes, is_temp_object, path_class, is_atime_touch_of)
 from rules.c15 import stack_entries
 from rules import c17
 from graph import path_brief
@@ -68,7 +68,7 @@ def r02_2(ctx):
                 c = cls_of(ev)
                 if c == 'ns_remove_file' and obj_root(arg_role(ev, 'path')) == src:
                     continue
-                if c == 'meta_atime' and obj_root(arg_role(ev, 'path')) == dst:
+                if is_atime_touch_of(ev, dst):
                     continue
                 bad.append(e)
             out.append(inst('R02.2', pub_path + '|after link failure', not bad,
